@@ -1,4 +1,4 @@
 SPECIFICATION MCSpec
-CONSTANTS Strict = FALSE  Big = FALSE
+CONSTANTS Strict = FALSE  Big = TRUE
 INVARIANTS TypeOK StatusContract MissingContract UsageContract DecContract StemContract
 CHECK_DEADLOCK FALSE
